@@ -21,6 +21,9 @@ CHECKS = {
  'C15': ('Hypothesis-generated datasets/projections vs Counter-based contingency table; Domain methods vs an ordered-dict model',
          'Generated-input search over domains, record sets (empty, duplicates, boundary), weights, shuffled/extra columns, projection orders and spellings; every Domain method compared with a plain model.',
          'Trusts pandas/numpy and the Counter-based reference in pbt/c15.py.'),
+ 'C02': ('Hypothesis RuleBasedStateMachine over query/cache/save-load histories on one model vs brute-force joint oracle',
+         'Stateful generated search: thousands of histories of project/bulk/krondot/datavector/cache/uncache/save-load/synthetic_data/scribble steps; after every step the answer is compared with the explicit joint in the requested axis order and with the first answer to the same question.',
+         'Trusts the brute-force joint; krondot compared only while exp(potentials) stays in float range; calculate_many_marginals is given tuples (its dict-keyed interface).'),
 }
 NOT_YET = 'check not built yet (work in progress in this session); see DESIGN.md for the planned check'
 
